@@ -114,6 +114,9 @@ def gen_traces(ctx: Ctx, seed: int, n_traces: int, lo: int, hi: int, insert_bias
     # directed prefixes: preconditions that random choice reaches rarely (index reuse inverting child order before an insertion,
     # fan-in / fan-out with a deletion in the middle, parallel order links, deletion of a multi-linked node)
     SCRIPTS = [
+        # a stray link to a port beyond the operation's arity, removed again, then order links: every link attaches to an existing port
+        [A(1, 0), A(1, 0), L(1, 1, 2, 2, 2), {"a": "DeleteLink", "i": 1, "sn": 1, "so": 2, "dn": 2, "do": 2}, {"a": "AddOrderLink", "i": 1, "sn": 1, "dn": 2},
+         L(1, 1, 0, 2, 0)],
         [A(2, 0), A(2, 0), A(2, 0), {"a": "DeleteNode", "i": 2, "n": 1}, A(2, 0, m="m"), A(1, 0), {"a": "InsertHugr", "i": 1, "p": 1}],
         [A(1, 0), A(1, 0), A(1, 0), L(1, 1, 0, 3, 0), L(1, 2, 0, 3, 0), L(1, 2, 1, 3, 0), {"a": "DeleteLink", "i": 1, "sn": 2, "so": 0, "dn": 3, "do": 0}],
         [A(1, 0), A(1, 0), L(1, 1, 0, 2, 0), L(1, 1, 0, 2, 1), L(1, 1, 0, 2, 0), {"a": "DeleteLink", "i": 1, "sn": 1, "so": 0, "dn": 2, "do": 0}],
